@@ -5,6 +5,7 @@ import (
 	"go/types"
 	"strconv"
 	"strings"
+	"time"
 
 	"verif/engine/smt"
 )
@@ -340,6 +341,64 @@ func registerNatives(e *Engine) {
 	}
 	e.reg(V+"ParseInt", parseStub(true))
 	e.reg(V+"ParseUint", parseStub(false))
+	// Pure*: run a side-effect-free closure on all its paths and merge the results into ONE term
+	// (callee summarisation): the caller continues on a single path instead of one per callee path.
+	pure := func(e *Engine, st *State, cc *CallCtx) (Value, bool) {
+		fv := cc.Args[0].(FuncV)
+		if fv.Fn == nil {
+			panic(unsupported("Pure: not a Go closure"))
+		}
+		type outcome struct {
+			cond *smt.Term
+			val  *smt.Term
+		}
+		var outs []outcome
+		base := len(st.pc)
+		child := st.clone(e)
+		child.frames = nil
+		child.forced, child.fpos, child.decided = nil, 0, nil
+		child.panic_, child.recovered = nil, false
+		fr := e.pushFrame(child, fv.Fn, nil, fv.Bind, nil, retNormal)
+		fr.onRet = func(s2 *State, res Value) {
+			t, ok := res.(*smt.Term)
+			if !ok {
+				panic(unsupported("Pure: result is not a scalar"))
+			}
+			outs = append(outs, outcome{cond: c.And(s2.pc[base:]...), val: t})
+			s2.done = true
+		}
+		saved := e.work
+		e.work = []*State{child}
+		for len(e.work) > 0 {
+			s2 := e.work[len(e.work)-1]
+			e.work = e.work[:len(e.work)-1]
+			e.runPath(s2)
+			e.rep.Steps += s2.steps - st.steps
+			if !e.deadline.IsZero() && time.Now().After(e.deadline) {
+				e.work = nil
+				e.rep.Inconclusive = appendUniq(e.rep.Inconclusive, "time budget exhausted inside a summarised call (reduced coverage)")
+			}
+		}
+		e.work = saved
+		if len(outs) == 0 {
+			panic(pathDead{}) // every path of the callee ended (panic reported, dead or unsupported)
+		}
+		res := outs[len(outs)-1].val
+		for i := len(outs) - 2; i >= 0; i-- {
+			res = c.Ite(outs[i].cond, outs[i].val, res)
+		}
+		// paths of the callee that ended abnormally are excluded from the continuation
+		var conds []*smt.Term
+		for _, o := range outs {
+			conds = append(conds, o.cond)
+		}
+		if cover := c.Or(conds...); !cover.IsTrue() {
+			e.assume(st, cover)
+		}
+		return res, true
+	}
+	e.reg(V+"PureBool", pure)
+	e.reg(V+"PureInt", pure)
 	// EqBytes: byte-wise equality of two slices as ONE term (no per-byte path split)
 	e.reg(V+"EqBytes", func(e *Engine, st *State, cc *CallCtx) (Value, bool) {
 		a, b := cc.Args[0].(SliceV), cc.Args[1].(SliceV)
